@@ -375,6 +375,9 @@ func (x *Exec) contractEnv(con *Contract, callee *ssa.Function, sig *types.Signa
 
 func (fr *Frame) applyContract(n *vnode, instr *ssa.Call, con *Contract, callee *ssa.Function, args []*Val, resT types.Type) *Val {
 	x := fr.x
+	if con.NoReturn {
+		defer func() { x.vc.Assume(Not(n.reach)) }()
+	}
 	c := instr.Common()
 	sig := c.Signature()
 	var argTypes []types.Type
